@@ -269,6 +269,10 @@ def bisim(ctx, rows, cols, pool, limit=10**9):
     frontier, seen, n_trans, bad = {}, set(), 0, []
     scripts0 = [[a, b] for a in range(st["ranges"][0]) for b in range(st["ranges"][1])]
     res0 = list(pool.map(_bisim_worker, [(rows, cols, sc) for sc in scripts0]))
+    if rows * cols > 1 and any((not r["fin"]) and r["state"] is None for r in res0):
+        # the live state is read from gen_wilson's frame (locals visited / connection_list / path); if a rewrite renamed them the
+        # state is not observable: that is not evidence of anything, the tapped-run replay remains the tie
+        return dict(grid=f"{rows}x{cols}", states=0, transitions=0, complete=False, unavailable=True), []
     for sc, ms, r in zip(scripts0, st["starts"], res0):
         want = [ms["vis"], ms["edges"], ms["path"]]
         if r["notes"]: bad.append("; ".join(r["notes"][:2]))
@@ -394,6 +398,17 @@ def run(ctx):
                 ctx.disagree(f"state-space correspondence {r}x{c}: {b}", dict(rows=r, cols=c))
     ctx.extra["state_space_correspondence"] = bis
     ctx.exhaustive = all(b["complete"] for b in bis)
+    if any(b.get("unavailable") for b in bis):
+        ctx.notes.append("state-space correspondence unavailable: gen_wilson's frame no longer exposes visited/connection_list/path; "
+                         "falling back to best-first enumeration of scripted runs")
+        for (r, c), budget in [((2, 3), 6000), ((3, 2), 6000)]:
+            lo, U, fin, runs, _ = exact_impl_law(ctx, r, c, budget)
+            span = spanning_masks_py(r, c); N = len(span)
+            for T in sorted(set(span) | set(lo)):
+                l = lo.get(T, Fraction(0))
+                if T not in span or l > Fraction(1, N) or l + U < Fraction(1, N):
+                    ctx.violate(f"exact enumeration of the real gen_wilson on {r}x{c}: mask {T} has probability in [{float(l):.6f}, {float(l+U):.6f}]",
+                                dict(rows=r, cols=c, tree=T, explored_runs=runs, unexplored_mass=str(U))); break
 
     # ---- 3. exact law of the model (driver) ---------------------------------------------------------------------
     laws = [(2, 2, 80), (2, 3, 200), (3, 2, 200)] + ([] if ctx.quick else [(3, 3, 300)])
